@@ -105,3 +105,44 @@ class PreUsed(ss.Intervention):
     def step(self):
         au = self.sim.people.auids
         self.vals.append((self.d_a.rvs(au[:6]).tolist(), self.d_b.rvs(au[:6]).tolist(), self.u_a.rvs(au[:6]).tolist()))
+
+
+class _RefHolderMixin:
+    """Reads nothing, samples nothing, changes nothing: only keeps references to other module objects of the sim."""
+    def _grab(self, sim):
+        order = ['demographics', 'networks', 'diseases', 'interventions', 'analyzers', 'connectors']
+        mods = [(g, m) for g in order for m in getattr(sim, g)()]
+        me = [i for i, (g, m) in enumerate(mods) if m is self][0]
+        if self.which == 'earlier': self.watched = [m for g, m in mods[:me] if g in ('diseases', 'networks', 'demographics')]
+        else: self.watched = [m for g, m in mods[me + 1:]]
+    def step(self): pass
+
+
+class RefHolderIntv(_RefHolderMixin, ss.Intervention):
+    def __init__(self, which='earlier', **kw):
+        super().__init__(**kw); self.which = which
+    def init_pre(self, sim, **kw):
+        super().init_pre(sim, **kw); self._grab(sim)
+
+
+class RefHolderAna(_RefHolderMixin, ss.Analyzer):
+    def __init__(self, which='earlier', **kw):
+        super().__init__(**kw); self.which = which
+    def init_pre(self, sim, **kw):
+        super().init_pre(sim, **kw); self._grab(sim)
+
+
+class RefHolderConn(_RefHolderMixin, ss.Connector):
+    def __init__(self, which='earlier', **kw):
+        super().__init__(**kw); self.which = which
+    def init_pre(self, sim, **kw):
+        super().init_pre(sim, **kw); self._grab(sim)
+
+
+class DelayDays(ss.Intervention):
+    """A module whose default delay is a distribution over a duration written in days (C05: overriding it with a unit-less duration)."""
+    def __init__(self, pars=None, **kwargs):
+        super().__init__()
+        self.define_pars(delay=ss.constant(v=ss.days(5)), wait=ss.normal(loc=ss.days(20), scale=ss.days(2)))
+        self.update_pars(pars, **kwargs)
+    def step(self): pass
